@@ -590,8 +590,12 @@ impl<'ast, 'res> Resolver<'ast, 'res> {
         // Set current function context for return validation
         let prev_owner = self.current_owner;
         let prev_function = self.current_function;
+        // A function body is outside any loop of the code that defines it:
+        // `comot`/`next` cannot reach across the call boundary.
+        let prev_in_loop = self.in_loop;
         self.current_owner = function_id;
         self.current_function = Some(function_id);
+        self.in_loop = 0;
 
         let param_scope =
             self.facts.push_scope(Some(self.current_scope()), self.current_owner, body.span);
@@ -628,6 +632,7 @@ impl<'ast, 'res> Resolver<'ast, 'res> {
         // Restore previous function context
         self.current_owner = prev_owner;
         self.current_function = prev_function;
+        self.in_loop = prev_in_loop;
     }
 
     fn check_return_stmt(&mut self, expr: Option<ExprRef<'ast>>, span: &'ast Span) {
